@@ -29,12 +29,15 @@ import (
 	"context"
 	"crypto/tls"
 	"encoding/json"
+	"errors"
 	"fmt"
+	"io"
 	"net"
 	"os"
 	"path/filepath"
 	"strings"
 	"sync"
+	"syscall"
 	"testing"
 	"time"
 
@@ -118,7 +121,8 @@ type In struct {
 	From  string   `json:"from"`
 	Rcpts []string `json:"rcpts"`
 	Hdr   []Field  `json:"hdr"`
-	Body  string   `json:"body"` // small | empty | big
+	Body  string   `json:"body"`  // small | empty | big | unreadable
+	Place string   `json:"place"` // global | source | destination
 
 	// milter
 	Fo     string   `json:"fo"`   // absent | yes | no
@@ -334,6 +338,28 @@ func bodyBytes(kind string) []byte {
 	}
 }
 
+// badBuffer is a message body the server cannot open (a local I/O error).
+type badBuffer struct{}
+
+func (badBuffer) Open() (io.ReadCloser, error) { return nil, errors.New("verif: body buffer unreadable") }
+func (badBuffer) Len() int                     { return 7 }
+func (badBuffer) Remove() error                { return nil }
+
+// placed wraps the check block of a row into the block the row names.
+func placed(in In, check string) string {
+	tgt := "deliver_to &x07target\n"
+	ind := func(s string) string {
+		return "    " + strings.ReplaceAll(strings.TrimRight(s, "\n"), "\n", "\n    ") + "\n"
+	}
+	switch in.Place {
+	case "source":
+		return "source sender.test {\n" + ind(check+tgt) + "}\ndefault_source {\n    reject\n}\n"
+	case "destination":
+		return "destination rcpt.test {\n" + ind(check+tgt) + "}\ndefault_destination {\n    reject\n}\n"
+	}
+	return check + tgt
+}
+
 func headerOf(in In) (textproto.Header, string) {
 	var b strings.Builder
 	for _, f := range in.Hdr {
@@ -424,7 +450,11 @@ func sendMsg(t *testing.T, r Row, pipe *msgpipeline.MsgPipeline, o *Out) {
 	}
 	hdr, hdrText := headerOf(in)
 	_ = hdrText
-	err = d.Body(ctx, hdr, buffer.MemoryBuffer{Slice: bodyBytes(in.Body)})
+	var body buffer.Buffer = buffer.MemoryBuffer{Slice: bodyBytes(in.Body)}
+	if in.Body == "unreadable" {
+		body = badBuffer{}
+	}
+	err = d.Body(ctx, hdr, body)
 	o.Body = classify(err)
 	if err != nil {
 		_ = d.Abort(ctx)
@@ -472,7 +502,18 @@ func runRow(t *testing.T, r Row) (o Out) {
 			o.Note += fmt.Sprintf("panic: %v ", e)
 			o.Panics += 100
 		}
-		for _, l := range theLog.take() {
+		// The check runner reports a recovered panic of a check after it has
+		// released the waiting command (wg.Done before log.Printf): the report
+		// may arrive after the command returned.  Where a stage of the check
+		// visibly did not happen, wait for the report.
+		lines := theLog.take()
+		if silentStage(r, &o) {
+			for i := 0; i < 5000 && !hasPanicLine(lines); i++ {
+				time.Sleep(time.Millisecond)
+				lines = append(lines, theLog.take()...)
+			}
+		}
+		for _, l := range lines {
 			if strings.Contains(l, "panic during check execution") {
 				o.Panics++
 			}
@@ -493,6 +534,49 @@ func runRow(t *testing.T, r Row) (o Out) {
 	return o
 }
 
+func hasPanicLine(lines []string) bool {
+	for _, l := range lines {
+		if strings.Contains(l, "panic during check execution") {
+			return true
+		}
+	}
+	return false
+}
+
+// silentStage: the scripted server is up and the message passed, but the server
+// was not asked at a stage (no request at all / no MAIL before RCPT or the
+// header): the footprint of a check call that did not run to its end.
+func silentStage(r Row, o *Out) bool {
+	if o.Start.K != "ok" {
+		return false
+	}
+	switch r.In.Sub {
+	case "rspamd":
+		return o.Conns == 0 && r.In.Resp.K != "refused" && o.Body.K == "ok"
+	case "milter":
+		sawM, later := false, false
+		for _, e := range o.Seen {
+			switch e.C {
+			case "M":
+				sawM = true
+			case "R", "L", "N", "B", "E":
+				later = true
+			}
+		}
+		return later && !sawM && !hasOpt(r.In.Proto, "nomail")
+	}
+	return false
+}
+
+func hasOpt(l []string, o string) bool {
+	for _, x := range l {
+		if x == o {
+			return true
+		}
+	}
+	return false
+}
+
 func buildPipeline(t *testing.T, r Row, o *Out, cfg string) *msgpipeline.MsgPipeline {
 	o.Cfg = cfg
 	nodes, err := parser.Read(strings.NewReader(cfg), "verif-x07.conf")
@@ -508,6 +592,26 @@ func buildPipeline(t *testing.T, r Row, o *Out, cfg string) *msgpipeline.MsgPipe
 	pipe.Hostname = "mx.verif.test"
 	pipe.Log = log.Logger{Out: theLog}
 	return pipe
+}
+
+// reservedPort returns a loopback TCP address at which nobody listens and
+// nobody else can start to listen while the row runs: a socket that is bound
+// but not listening (connections are refused).  A port merely closed could be
+// handed to a listener of a row running in another process.
+func reservedPort(t *testing.T) (string, func()) {
+	fd, err := syscall.Socket(syscall.AF_INET, syscall.SOCK_STREAM, 0)
+	if err != nil {
+		t.Fatalf("socket: %v", err)
+	}
+	if err := syscall.Bind(fd, &syscall.SockaddrInet4{Port: 0, Addr: [4]byte{127, 0, 0, 1}}); err != nil {
+		t.Fatalf("bind: %v", err)
+	}
+	sa, err := syscall.Getsockname(fd)
+	if err != nil {
+		t.Fatalf("getsockname: %v", err)
+	}
+	port := sa.(*syscall.SockaddrInet4).Port
+	return fmt.Sprintf("127.0.0.1:%d", port), func() { syscall.Close(fd) }
 }
 
 // ---- milter ---------------------------------------------------------------------------------
@@ -530,6 +634,10 @@ func runMilter(t *testing.T, r Row, o *Out) {
 		ln, err = net.Listen("unix", p)
 		endpoint = "unix://" + p
 		defer os.Remove(p)
+	} else if in.Srv == "down" {
+		addr, release := reservedPort(t)
+		defer release()
+		endpoint = "tcp://" + addr
 	} else {
 		ln, err = net.Listen("tcp4", "127.0.0.1:0")
 		if err == nil {
@@ -540,7 +648,9 @@ func runMilter(t *testing.T, r Row, o *Out) {
 		t.Fatalf("row %d: listen: %v", r.ID, err)
 	}
 	if in.Srv == "down" {
-		ln.Close() // nobody listens at the configured endpoint
+		if ln != nil {
+			ln.Close() // unix: nobody listens at the (per-process) socket path
+		}
 	} else if in.Srv == "lib" {
 		srv.serveLib(ln)
 		defer srv.stopLib()
@@ -562,8 +672,8 @@ func runMilter(t *testing.T, r Row, o *Out) {
 	} else {
 		b.WriteString("    milter " + endpoint + "\n")
 	}
-	b.WriteString("}\ndeliver_to &x07target\n")
-	pipe := buildPipeline(t, r, o, b.String())
+	b.WriteString("}\n")
+	pipe := buildPipeline(t, r, o, placed(in, b.String()))
 	if pipe == nil {
 		return
 	}
